@@ -1068,7 +1068,7 @@ func TestC42_PreExecInsideCommitWindow(t *testing.T) {
 		ev.Class("window-session")
 	})
 	for _, p := range c42Points {
-		ev.Floor("window:"+p, "window", 0.12)
+		ev.Floor("window:"+p, "window", 0.07)
 	}
 	ev.Floor("window-req:nontrivial", "window-req", 0.15)
 }
